@@ -633,6 +633,32 @@ static void run_printf(const Case& c) {
       BOTH("%%|%5.3s|%-*s|%x", a.c_str(), w, a.c_str(), static_cast<unsigned>(c.u(2)));
       break;
     }
+    // Formats 8..10: a NUL byte can only enter a formatted result through %c with argument 0; these put such bytes
+    // (at the start, in the middle, at the end, several) into results of every length class, so that "embedded NUL
+    // bytes" and "results far longer than any internal buffer" are exercised together and not only separately.
+    case 8: {
+      int c0 = static_cast<int>(c.u(1) & 0xFF), c1 = static_cast<int>(c.u(2) & 0xFF), c2 = static_cast<int>(c.u(3) & 0xFF), c3 = static_cast<int>(c.u(4) & 0xFF);
+      int w1 = static_cast<int>(c.i(5)), w2 = static_cast<int>(c.i(6)), w3 = static_cast<int>(c.i(7));
+      for (int w : {w1, w2, w3})
+        if (w < -(1 << 20) || w > (1 << 20)) throw std::logic_error("width outside domain");
+      string a = cstr_of(c.str(0));
+      BOTH("%c%*s%c%*s%c%*s%c", c0, w1, a.c_str(), c1, w2, a.c_str(), c2, w3, a.c_str(), c3);
+      break;
+    }
+    case 9: {
+      int c0 = static_cast<int>(c.u(1) & 0xFF), c1 = static_cast<int>(c.u(2) & 0xFF);
+      string a = cstr_of(c.str(0)), b = cstr_of(c.str(1)), d = cstr_of(c.str(2));
+      BOTH("%s%c%s%c%s", a.c_str(), c0, b.c_str(), c1, d.c_str());
+      break;
+    }
+    case 10: {
+      int w0 = static_cast<int>(c.i(1)), w1 = static_cast<int>(c.i(3));
+      int c0 = static_cast<int>(c.u(2) & 0xFF), c1 = static_cast<int>(c.u(4) & 0xFF);
+      for (int w : {w0, w1})
+        if (w < -(1 << 20) || w > (1 << 20)) throw std::logic_error("width outside domain");
+      BOTH("%*c|%*c", w0, c0, w1, c1);
+      break;
+    }
     default: throw std::logic_error("bad printf format id");
   }
 #undef BOTH
@@ -642,6 +668,10 @@ static void run_printf(const Case& c) {
   VCHECK(got == exp, cat("string_printf-value:fmt", id, amb), "string_printf result differs from vsnprintf: ", hex(got, 40), " vs ", hex(exp, 40), " (errno on entry ", errno_name(errno_in), ")");
   if (exp.size() > 8 || id == 4) ctx().nontrivial_case();
   ctx().cls(exp.size() <= 1024 ? "printf:result<=1KiB" : (exp.size() <= 65536 ? "printf:result<=64KiB" : "printf:result>64KiB"));
+  if (exp.find('\0') != string::npos) {
+    ctx().cls(exp.size() < 256 ? "printf:result-contains-NUL:<256B" : (exp.size() <= 1024 ? "printf:result-contains-NUL:256B..1KiB" : (exp.size() <= 65536 ? "printf:result-contains-NUL:1KiB..64KiB" : "printf:result-contains-NUL:>64KiB")));
+    if (exp.size() >= 256) ctx().cls(exp[0] == 0 ? "printf:long-result-NUL-first-byte" : (exp.back() == 0 ? "printf:long-result-NUL-last-byte" : "printf:long-result-NUL-inside"));
+  }
   ctx().cls(errno_in ? "printf:errno-on-entry-nonzero" : "printf:errno-on-entry-0");
 }
 
@@ -695,6 +725,20 @@ static void run_wprintf(const Case& c) {
       WBOTH(a.size() + 64, L"a moderately long format string with %ls in the middle", a.c_str());
       break;
     }
+    case 7: {
+      // L'\0' enters a wide result only through %lc with argument 0 (first / inner / last unit of the result)
+      auto wc = [&](size_t k) -> wint_t {
+        uint32_t v = static_cast<uint32_t>(c.u(k));
+        if (v > 0x10FFFF || (v >= 0xD800 && v <= 0xDFFF)) throw std::logic_error("wide character outside domain");
+        return static_cast<wint_t>(v);
+      };
+      int w1 = static_cast<int>(c.i(2)), w2 = static_cast<int>(c.i(4));
+      for (int w : {w1, w2})
+        if (w < -(1 << 20) || w > (1 << 20)) throw std::logic_error("width outside domain");
+      wstring a = wstr_arg(0);
+      WBOTH(static_cast<size_t>(w1 < 0 ? -w1 : w1) + static_cast<size_t>(w2 < 0 ? -w2 : w2) + 2 * a.size() + 64, L"%lc%*ls%lc%*ls%lc", wc(1), w1, a.c_str(), wc(3), w2, a.c_str(), wc(5));
+      break;
+    }
     default: throw std::logic_error("bad wprintf format id");
   }
 #undef WBOTH
@@ -706,6 +750,7 @@ static void run_wprintf(const Case& c) {
   if (exp.size() > 2 * fmt_len) ctx().nontrivial_case();
   ctx().cls(exp.size() > 2 * fmt_len ? "wprintf:result-longer-than-2x-format" : (exp.size() == 2 * fmt_len || exp.size() + 1 == 2 * fmt_len ? "wprintf:result-at-first-buffer-edge" : "wprintf:result-shorter"));
   ctx().cls(errno_in ? "wprintf:errno-on-entry-nonzero" : "wprintf:errno-on-entry-0");
+  if (exp.find(L'\0') != wstring::npos) ctx().cls(exp.size() > 2 * fmt_len ? "wprintf:result-contains-NUL:longer-than-2x-format" : "wprintf:result-contains-NUL:fits-first-buffer");
 }
 
 // ---------------------------------------------------------------- join: every way of handing the delimiter / the items over
@@ -1410,13 +1455,71 @@ static string gen_cstring(size_t maxlen) {
 static Case gen_printf() {
   const size_t kMax = ctx().thorough() ? (1u << 20) : (1u << 17);
   Case c("printf");
-  uint64_t id = vg::below(8);
+  uint64_t id = vg::below(11);
   c.N(id + 256 * static_cast<uint64_t>(vg::coin() ? 0 : vg::pick(ambient_errnos())));
   auto width = [&]() -> int64_t {
     int64_t w = static_cast<int64_t>(vg::chance(1, 3) ? vg::scaled(kMax) : vg::scaled(300));
     return vg::chance(1, 4) ? -w : w;
   };
+  // a %c argument: NUL half of the time
+  auto chr = [&]() -> uint64_t { return vg::coin() ? 0 : vg::below(256); };
+  // total result lengths straddling typical first-buffer sizes, and anything up to the maximum
+  auto total = [&]() -> uint64_t {
+    switch (vg::below(4)) {
+      case 0: return vg::scaled(kMax);
+      case 1: return vg::scaled(2000);
+      default: {
+        uint64_t base = vg::pick<uint64_t>({64, 128, 256, 512, 1024, 2048, 4096, 8192, 16384, 32768, 65536});
+        return base - 2 + vg::below(5);
+      }
+    }
+  };
   switch (id) {
+    case 8: {
+      // split the total into the three padded fields: NULs (c0..c3) at the start, at the end and at two inner
+      // positions that are anywhere, next to an end, or next to each other
+      uint64_t t = total();
+      uint64_t rest = t > 4 ? t - 4 : 0;
+      auto cut = [&]() -> uint64_t {
+        switch (vg::below(5)) {
+          case 0: return 0;
+          case 1: return rest;
+          case 2: return rest / 2;
+          case 3: return vg::below(2) ? (rest ? 1 : 0) : (rest ? rest - 1 : 0);
+          default: return vg::below(rest + 1);
+        }
+      };
+      uint64_t p = cut(), q = cut();
+      if (p > q) std::swap(p, q);
+      auto sign = [&](uint64_t w) -> int64_t { return vg::chance(1, 4) ? -static_cast<int64_t>(w) : static_cast<int64_t>(w); };
+      c.N(chr()).N(chr()).N(chr()).N(chr()).I(sign(p)).I(sign(q - p)).I(sign(rest - q));
+      c.S(vg::chance(1, 3) ? string() : gen_cstring(6));
+      break;
+    }
+    case 9: {
+      uint64_t t = total();
+      uint64_t rest = t > 2 ? t - 2 : 0;
+      uint64_t p = vg::chance(1, 4) ? 0 : vg::below(rest + 1), q = vg::chance(1, 4) ? rest : vg::below(rest + 1);
+      if (p > q) std::swap(p, q);
+      auto filler = [&](uint64_t n) {
+        string r = vg::expand(vg::u64(), n);
+        for (auto& ch : r)
+          if (ch == 0) ch = 'y';
+        return r;
+      };
+      c.N(chr()).N(chr()).S(filler(p)).S(filler(q - p)).S(filler(rest - q));
+      break;
+    }
+    case 10: {
+      uint64_t t = total();
+      uint64_t rest = t > 1 ? t - 1 : 0;
+      uint64_t p = vg::chance(1, 3) ? vg::below(3) : vg::below(rest + 1);
+      if (p > rest) p = rest;
+      if (vg::coin()) p = rest - p;
+      auto sign = [&](uint64_t w) -> int64_t { return vg::chance(1, 3) ? -static_cast<int64_t>(w) : static_cast<int64_t>(w); };
+      c.I(sign(p)).N(chr()).I(sign(rest - p)).N(chr());
+      break;
+    }
     case 0: c.S(gen_cstring(kMax)); break;
     case 1: c.I(width()).I(static_cast<int32_t>(vg::interesting64())); break;
     case 2: c.I(static_cast<int64_t>(vg::chance(1, 4) ? vg::scaled(kMax) : vg::scaled(400))).D(vg::pick<double>({0.0, -0.0, 1.5, -2.25, 1e300, 3.141592653589793, 1e-300, 123456789.125, 0.1}) * (vg::coin() ? 1.0 : static_cast<double>(vg::below(1000)))); break;
@@ -1454,8 +1557,32 @@ static string gen_wide_arg(size_t maxunits) {
 static Case gen_wprintf() {
   const size_t kMax = ctx().thorough() ? (1u << 18) : (1u << 15); // wide units: 2^18 units = 1 MiB
   Case c("wprintf");
-  uint64_t id = vg::below(7);
+  uint64_t id = vg::below(8);
   c.N(id + 256 * static_cast<uint64_t>(vg::coin() ? 0 : vg::pick(ambient_errnos())));
+  if (id == 7) {
+    // L"%lc%*ls%lc%*ls%lc": each character L'\0' half of the time; total length around 2x the format length (30),
+    // around powers of two, or anything up to the maximum
+    auto wchr = [&]() -> uint64_t { return vg::coin() ? 0 : vg::pick<uint64_t>({'a', 'Z', ' ', 0xE9, 0x20AC, 0xD7FF, 0xE000, 0x1F600, 0x10FFFF}); };
+    uint64_t t;
+    switch (vg::below(4)) {
+      case 0: t = vg::scaled(kMax); break;
+      case 1: t = vg::below(70); break;
+      case 2: t = vg::pick<uint64_t>({64, 128, 256, 512, 1024, 2048, 4096, 8192, 16384}) - 2 + vg::below(5); break;
+      default: t = vg::scaled(2000); break;
+    }
+    uint64_t rest = t > 3 ? t - 3 : 0;
+    uint64_t p;
+    switch (vg::below(4)) {
+      case 0: p = 0; break;
+      case 1: p = rest; break;
+      case 2: p = rest / 2; break;
+      default: p = vg::below(rest + 1); break;
+    }
+    auto sign = [&](uint64_t w) -> int64_t { return vg::chance(1, 4) ? -static_cast<int64_t>(w) : static_cast<int64_t>(w); };
+    c.N(wchr()).I(sign(p)).N(wchr()).I(sign(rest - p)).N(wchr());
+    c.S(vg::chance(1, 3) ? string() : gen_wide_arg(4));
+    return c;
+  }
   auto value = [&]() -> int64_t {
     return static_cast<int32_t>(vg::coin() ? vg::interesting64() : vg::pick<uint64_t>({0, 5, 12, 123, 1234, 12345, 123456, 1234567, 0x7FFFFFFF, 0x80000000ULL}));
   };
@@ -1698,8 +1825,21 @@ static void enum_wprintf(Enum& e) {
       if (e.mine(idx++)) e.exec(Case("wprintf").N(F(3)).S(encode_w(a)).S(encode_w(a.substr(0, len / 3))).I(static_cast<int64_t>(len) * 1000));
     }
     if (e.mine(idx++)) e.exec(Case("wprintf").N(F(4)));
+    // L"%lc%*ls%lc%*ls%lc" (first buffer: 30 units): every total length 3..70 and around 256 / 1024 / 4096, every subset
+    // of the first / middle / last character L'\0'
+    for (size_t len = 3; len <= 4097 && !e.stop; len++) {
+      if (len > 70 && !(len >= 255 && len <= 257) && !(len >= 1023 && len <= 1025) && !(len >= 4095 && len <= 4097)) continue;
+      int64_t rest = static_cast<int64_t>(len) - 3, w = rest / 2;
+      for (unsigned mask = 0; mask < 8; mask++) {
+        if (!e.mine(idx++)) continue;
+        Case k("wprintf");
+        k.N(F(7)).N(mask & 1 ? 0 : 'A').I(w).N(mask & 2 ? 0 : 0x20AC).I(-(rest - w)).N(mask & 4 ? 0 : 'C').S(encode_w(wstring()));
+        e.exec(k);
+      }
+    }
   }
-  e.complete(cat("L\"%d\" with 1..10 digit values of both signs, L\"%*d\" widths -40..40, L\"%ls\" arguments of every length 0..130 (all result lengths around 2x the format length), each with ", ambient_errnos().size(), " values of errno on entry (0, EILSEQ, EOVERFLOW, ENOMEM, EINVAL, ERANGE, EINTR, EAGAIN, E2BIG, EBADF)"));
+  e.complete(cat("L\"%d\" with 1..10 digit values of both signs, L\"%*d\" widths -40..40, L\"%ls\" arguments of every length 0..130 (all result lengths around 2x the format length), "
+                 "L\"%lc%*ls%lc%*ls%lc\" with every subset of the three characters L'\\0' at every total length 3..70 and 2^k-1..2^k+1 (k=8,10,12), each with ", ambient_errnos().size(), " values of errno on entry (0, EILSEQ, EOVERFLOW, ENOMEM, EINVAL, ERANGE, EINTR, EAGAIN, E2BIG, EBADF)"));
 }
 
 // string_printf: results around typical first-buffer sizes, once per ambient errno value
@@ -1718,8 +1858,23 @@ static void enum_printf(Enum& e) {
     }
     if (e.mine(idx++)) e.exec(Case("printf").N(F(6)));
     if (e.mine(idx++)) e.exec(Case("printf").N(F(4)).N('a').N(0).N('b'));
+    // results of total length 2^k-1, 2^k, 2^k+1 (k=3..12, 16) in which every subset of four %c characters (first byte,
+    // one third, two thirds, last byte) is NUL
+    for (size_t len : {7, 8, 9, 15, 16, 17, 31, 32, 33, 63, 64, 65, 127, 128, 129, 255, 256, 257, 511, 512, 513, 1023, 1024, 1025, 4095, 4096, 4097, 65535, 65536, 65537}) {
+      if (e.stop) break;
+      int64_t rest = static_cast<int64_t>(len) - 4, w = rest / 3;
+      for (unsigned mask = 0; mask < 16; mask++) {
+        if (!e.mine(idx++)) continue;
+        e.exec(Case("printf").N(F(8)).N(mask & 1 ? 0 : 'A').N(mask & 2 ? 0 : 'B').N(mask & 4 ? 0 : 'C').N(mask & 8 ? 0 : 'D').I(w).I(-w).I(rest - 2 * w).S("x"));
+      }
+      if (e.mine(idx++)) e.exec(Case("printf").N(F(9)).N(0).N(0).S(string((len - 2) / 2, 'p')).S("").S(string(len - 2 - (len - 2) / 2, 'r')));
+      if (e.mine(idx++)) e.exec(Case("printf").N(F(10)).I(static_cast<int64_t>(len) - 2).N(0).I(-1).N(0));
+      if (e.mine(idx++)) e.exec(Case("printf").N(F(10)).I(-(static_cast<int64_t>(len) - 2)).N(0).I(1).N('e'));
+    }
   }
-  e.complete(cat("\"%s\", \"%*d\", \"%.*f\", \"%s=%d:%s\" with argument lengths / widths / precisions 0,1,2 and 2^k-1, 2^k, 2^k+1 for k=3..12, the empty format and \"%c%c|%c\" with a NUL character, each with ", ambient_errnos().size(), " values of errno on entry"));
+  e.complete(cat("\"%s\", \"%*d\", \"%.*f\", \"%s=%d:%s\" with argument lengths / widths / precisions 0,1,2 and 2^k-1, 2^k, 2^k+1 for k=3..12, the empty format and \"%c%c|%c\" with a NUL character, "
+                 "\"%c%*s%c%*s%c%*s%c\" with every subset of the four characters NUL, \"%s%c%s%c%s\" and \"%*c|%*c\" with NUL characters at total result lengths 2^k-1, 2^k, 2^k+1 for k=3..12 and 16, each with ",
+                 ambient_errnos().size(), " values of errno on entry"));
 }
 
 int main(int argc, char** argv) {
